@@ -9,6 +9,7 @@ import (
 	"encoding/binary"
 	"errors"
 	"io"
+	"strconv"
 	"strings"
 	"sync"
 	"time"
@@ -92,6 +93,9 @@ type Fake struct {
 	Containers []Container
 	ListErr    error
 	Plan       ReadPlan
+	// HonourWindow: like the daemon, answer a log request with the frames whose timestamp lies in [since, until] of
+	// its options only (unix seconds, optional fraction); off: the whole log whatever was asked.
+	HonourWindow bool
 	// Yield, when set, is called at every call entry and return (scheduling point).
 	Yield func(label string)
 
@@ -248,9 +252,60 @@ func (f *Fake) ContainerLogs(ctx context.Context, id string, opts apicontainer.L
 	f.mu.Lock()
 	f.Opened[idx]++
 	f.mu.Unlock()
-	rd := &reader{f: f, idx: idx, data: c.Log, ctx: ctx}
+	data := c.Log
+	if f.HonourWindow {
+		data = filterWindow(data, opts.Since, opts.Until)
+	}
+	rd := &reader{f: f, idx: idx, data: data, ctx: ctx}
 	f.yield("logs-return:" + id)
 	return rd, nil
+}
+
+// unixOpt parses a since/until option ("", "1700000000", "1700000000.5").
+func unixOpt(v string, def int64) int64 {
+	if v == "" {
+		return def
+	}
+	secs, frac, _ := strings.Cut(v, ".")
+	n, err := strconv.ParseInt(secs, 10, 64)
+	if err != nil {
+		return def
+	}
+	ns := n * 1e9
+	if frac != "" {
+		frac = (frac + "000000000")[:9]
+		if fn, err := strconv.ParseInt(frac, 10, 64); err == nil {
+			ns += fn
+		}
+	}
+	return ns
+}
+
+// filterWindow keeps the well-formed frames inside the window; from the first frame it cannot read on, the log is
+// passed through unchanged.
+func filterWindow(log []byte, since, until string) []byte {
+	lo, hi := unixOpt(since, -1<<62), unixOpt(until, 1<<62)
+	var out []byte
+	for pos := 0; pos < len(log); {
+		if len(log)-pos < 8 {
+			return append(out, log[pos:]...)
+		}
+		size := int(binary.BigEndian.Uint32(log[pos+4 : pos+8]))
+		if size > len(log)-pos-8 {
+			return append(out, log[pos:]...)
+		}
+		payload := log[pos+8 : pos+8+size]
+		stamp, _, ok := strings.Cut(string(payload), " ")
+		t, err := time.Parse(time.RFC3339Nano, stamp)
+		if !ok || err != nil {
+			return append(out, log[pos:]...)
+		}
+		if ns := t.UnixNano(); ns >= lo && ns <= hi {
+			out = append(out, log[pos:pos+8+size]...)
+		}
+		pos += 8 + size
+	}
+	return out
 }
 
 type reader struct {
